@@ -698,7 +698,7 @@ def check_c08(tier, seed):
 
 def check_c17(tier, seed):
     t0 = time.time()
-    cfgs, skipped = available_configs(["sse2-rel", "scalar", "coresimd"] + (["sse2-dbg", "native"] if tier == "thorough" else []))
+    cfgs, skipped = available_configs(["sse2-rel", "scalar", "coresimd", "sse2-dbg"] + (["native"] if tier == "thorough" else []))
     build_all(cfgs)
     hist = {"quick": 1500, "thorough": 40000}[tier]
     det = selftest_determinism("sse2-rel", seed, [["c17", "--histories", 60, "--no-grid"]], seeds=2 if tier == "quick" else 16)
